@@ -4,7 +4,7 @@ Theorems: lean/CbProps/C18.lean on the mechanism model CbModel/Imports.lean (exa
 hidden items stay unresolvable, a second import is a no-op, after any import list a name resolves iff an imported
 module exports it, order and repetition are irrelevant).
 Tie: generated module sets (<= 5 modules in nested directories, each exporting / hiding a random subset of
-functions with statics (called by their plain name and, for single-component module names, also as m.f), constants, structs with interface + impl, enums, typedefs; modules import each other:
+functions with statics (called by their plain name and, for single-component module names, also as m.f), constants, structs with interface + impl, enums, typedefs; modules import each other (incl. self-imports and import cycles):
 chains and diamonds).  (P) the importing program uses every item the model says is visible: its output must equal
 the single-file program with all definitions inlined, for several permutations / duplications of the import list;
 (N) a program naming one item the model says is NOT visible (hidden, or exported by a module that is not imported)
@@ -97,6 +97,15 @@ def gen_modules(r, prefix):
                     callee = r.choice(cands)
             items.append(Item(kind, name, exported, body[0], (r.range(1, 9), callee)))
         mods.append(Mod(i, path, items, imports))
+    # cycles: a module may also import itself or a LATER module (import statements only — no new call edges); importing is
+    # idempotent, so the program must behave as without them
+    for m in mods:
+        if r.chance(15):
+            m.imports = m.imports + [m.path]
+        if r.chance(15):
+            later = [x.path for x in mods if x.idx > m.idx]
+            if later:
+                m.imports = m.imports + [r.choice(later)]
     return mods
 
 
